@@ -8,7 +8,7 @@ from props.C03 import param_seeds
 
 META = {
     "explanation_more": "Also (round 5): the per-peer reference quote is changed only by verify_peer_quote's gated insert; nothing prunes or replaces quotes_history elsewhere (C13.history.own).",
-    "explanation_more": 'Also (round 4): every quote of a QuoteVerification batch reaches verify_peer_quote — the batch loop has no early exit (C13.history.batch).',
+    "explanation_more2": 'Also (round 4): every quote of a QuoteVerification batch reaches verify_peer_quote — the batch loop has no early exit (C13.history.batch).',
     "explanation": "Decides: (1) PaymentQuote::bytes_for_sig passes content, timestamp, quoting_metrics, rewards_address — i.e. every field "
                    "except {pub_key, signature} — to the corresponding parameter of bytes_for_signing, and each parameter flows into the "
                    "returned buffer; hash() covers the signed bytes plus pub_key and signature; (2) check_is_signed_by_claimed_peer returns "
